@@ -9,6 +9,7 @@ import (
 	"go/token"
 	"go/types"
 	"math/big"
+	"sort"
 	"strconv"
 	"strings"
 
@@ -945,6 +946,102 @@ func (e *EvalEnv) call(x *ast.CallExpr) (Val, error) {
 		}
 		e.X.C.usesQuant = true
 		return TV{T: Raw(SBool, fmt.Sprintf("(%s ((%s (_ BitVec %d))) %s)", q, bn, cw.w, body.S)), Typ: types.Typ[types.Bool]}, nil
+	case "disjoint":
+		// disjoint(s, t): the two slices do not share storage
+		if len(x.Args) != 2 {
+			return nil, fmt.Errorf("disjoint(s, t)")
+		}
+		av, err := e.Eval(x.Args[0])
+		if err != nil {
+			return nil, err
+		}
+		bv, err := e.Eval(x.Args[1])
+		if err != nil {
+			return nil, err
+		}
+		at, ok1 := av.(TV)
+		bt, ok2 := bv.(TV)
+		if !ok1 || !ok2 || at.T.Sort != SSlice || bt.T.Sort != SSlice {
+			return nil, fmt.Errorf("disjoint needs two slices")
+		}
+		d := Or(Not(Eq(SlBase(at.T), SlBase(bt.T))),
+			bvCmp("bvule", bvBin("bvadd", SlOff(at.T), SlCap(at.T)), SlOff(bt.T)),
+			bvCmp("bvule", bvBin("bvadd", SlOff(bt.T), SlCap(bt.T)), SlOff(at.T)))
+		return TV{T: d, Typ: types.Typ[types.Bool]}, nil
+	case "frame_only":
+		// frame_only(loc1, loc2, ...): every heap location that existed before the call, other than the listed
+		// ones, holds its old value (whole-heap frame condition; the listed locations are evaluated in the pre-state)
+		if e.Old == nil {
+			return nil, fmt.Errorf("frame_only needs a pre-state")
+		}
+		expected := e.Old.Clone()
+		for _, a := range x.Args {
+			if ce, ok := a.(*ast.CallExpr); ok {
+				if fid, ok := ce.Fun.(*ast.Ident); ok && fid.Name == "elems" && len(ce.Args) == 1 {
+					// elems(s): every element of the backing array of slice s (evaluated in the pre-state) may change
+					prev := e.InOld
+					e.InOld = true
+					sv, err := e.Eval(ce.Args[0])
+					e.InOld = prev
+					if err != nil {
+						return nil, err
+					}
+					stv, ok := sv.(TV)
+					if !ok || stv.T.Sort != SSlice {
+						return nil, fmt.Errorf("elems() needs a slice")
+					}
+					elem := stv.Typ.Underlying().(*types.Slice).Elem()
+					r, hs := e.X.elemRegion(elem)
+					hNew := e.X.heapGet(e.St, r, hs)
+					hExp := e.X.heapGet(expected, r, hs)
+					e.X.heapSet(expected, r, Store(hExp, SlBase(stv.T), Select(hNew, SlBase(stv.T))))
+					continue
+				}
+			}
+			prev := e.InOld
+			e.InOld = true
+			lv, err := evalLValueAST(e, a)
+			e.InOld = prev
+			if err != nil {
+				return nil, fmt.Errorf("frame_only(%s): %v", exprString(a), err)
+			}
+			nv, err := e.X.Load(e.St, lv)
+			if err != nil {
+				return nil, err
+			}
+			if err := e.X.Store(expected, lv, nv); err != nil {
+				return nil, err
+			}
+		}
+		regions := map[string]bool{}
+		for r := range e.St.Heap {
+			regions[r] = true
+		}
+		for r := range expected.Heap {
+			regions[r] = true
+		}
+		var names []string
+		for r := range regions {
+			names = append(names, r)
+		}
+		sort.Strings(names)
+		var conj []Term
+		allocated := e.St.Brk.S != e.Old.Brk.S
+		for _, r := range names {
+			srt := e.X.regionSort[r]
+			cur := e.X.heapGet(e.St, r, srt)
+			exp := e.X.heapGet(expected, r, srt)
+			if cur.S == exp.S {
+				continue
+			}
+			if !allocated {
+				conj = append(conj, Eq(cur, exp))
+				continue
+			}
+			e.X.C.usesQuant = true
+			conj = append(conj, Raw(SBool, fmt.Sprintf("(forall ((r!f (_ BitVec 32))) (=> (bvult r!f %s) (= (select %s r!f) (select %s r!f))))", e.Old.Brk.S, cur.S, exp.S)))
+		}
+		return TV{T: And(conj...), Typ: types.Typ[types.Bool]}, nil
 	case "fresh":
 		// fresh(s): slice/pointer/map allocated during the call
 		v, err := e.Eval(x.Args[0])
@@ -993,6 +1090,44 @@ func (e *EvalEnv) call(x *ast.CallExpr) (Val, error) {
 			return nil, fmt.Errorf("conversion of non-integer %s", tv.Typ)
 		}
 		return TV{T: Resize(tv.T, cw.w, sg), Typ: typ}, nil
+	}
+	// package-level contract predicate (macro)
+	if e.Fn != nil && e.X.DB != nil {
+		rel := strings.TrimPrefix(pkgPathOf(e.Fn), modPath+"/")
+		if pd := e.X.DB.Preds[rel+"."+id.Name]; pd != nil {
+			if len(x.Args) != len(pd.Params) {
+				return nil, fmt.Errorf("pred %s expects %d arguments", pd.Name, len(pd.Params))
+			}
+			saved := map[string]Val{}
+			had := map[string]bool{}
+			var vals []Val
+			for _, a := range x.Args {
+				v, err := e.Eval(a)
+				if err != nil {
+					return nil, err
+				}
+				vals = append(vals, v)
+			}
+			for i, pn := range pd.Params {
+				saved[pn], had[pn] = e.Vars[pn], false
+				if _, ok := e.Vars[pn]; ok {
+					had[pn] = true
+				}
+				e.Vars[pn] = vals[i]
+			}
+			r, err := e.Eval(pd.Body.Expr)
+			for _, pn := range pd.Params {
+				if had[pn] {
+					e.Vars[pn] = saved[pn]
+				} else {
+					delete(e.Vars, pn)
+				}
+			}
+			if err != nil {
+				return nil, fmt.Errorf("in pred %s: %v", pd.Name, err)
+			}
+			return r, nil
+		}
 	}
 	// conversion to a named type of the function's package
 	if e.Fn != nil && e.Fn.Pkg != nil && len(x.Args) == 1 {
